@@ -565,22 +565,52 @@ class Resolver:
         if key in self._ret:
             return self._ret[key]
         out = defaultdict(set)
-        for n in self.m.walk_own(f.node):
-            if isinstance(n, ast.Assign) and len(n.targets) == 1 and isinstance(n.targets[0], ast.Name):
+        assigns = [n for n in self.m.walk_own(f.node) if isinstance(n, ast.Assign) and len(n.targets) == 1 and isinstance(n.targets[0], ast.Name)]
+        # locals holding a dict display (the table may be bound to a name first)
+        dict_locals = {}
+        for n in assigns:
+            if isinstance(n.value, ast.Dict):
+                dict_locals.setdefault(n.targets[0].id, []).append(n.value)
+
+        def table(e):
+            if isinstance(e, ast.Dict):
+                return [e]
+            if isinstance(e, ast.Name):
+                return dict_locals.get(e.id, [])
+            return []
+
+        def fv(val):
+            t = set(self.func_value_targets(f, val))
+            if isinstance(val, ast.Name) and val.id in out:
+                t |= out[val.id]
+            return t
+
+        for _ in range(4):  # copies of copies: small fixpoint
+            before = sum(len(v) for v in out.values())
+            for n in assigns:
                 v = n.value
-                d = None
+                ds = []
                 extra = []
-                if isinstance(v, ast.Call) and isinstance(v.func, ast.Attribute) and v.func.attr == "get" and isinstance(v.func.value, ast.Dict):
-                    d = v.func.value
+                if isinstance(v, ast.Call) and isinstance(v.func, ast.Attribute) and v.func.attr == "get" and table(v.func.value):
+                    ds = table(v.func.value)
                     extra = v.args[1:2]
-                elif isinstance(v, ast.Subscript) and isinstance(v.value, ast.Dict):
-                    d = v.value
+                elif isinstance(v, ast.Subscript) and table(v.value):
+                    ds = table(v.value)
                 elif isinstance(v, ast.Dict):
-                    d = v
-                if d is not None:
+                    ds = [v]
+                elif isinstance(v, ast.Name) and v.id in out:
+                    out[n.targets[0].id] |= out[v.id]
+                elif isinstance(v, ast.Attribute):
+                    t = self.func_value_targets(f, v)
+                    if t:
+                        out[n.targets[0].id] |= t
+                for d in ds:
                     for val in list(d.values) + list(extra):
-                        out[n.targets[0].id] |= self.func_value_targets(f, val)
-            elif isinstance(n, ast.For) and isinstance(n.target, ast.Name):
+                        out[n.targets[0].id] |= fv(val)
+            if sum(len(v) for v in out.values()) == before:
+                break
+        for n in self.m.walk_own(f.node):
+            if isinstance(n, ast.For) and isinstance(n.target, ast.Name):
                 lst = self.module_func_list(f.rel, n.iter)
                 if lst:
                     out[n.target.id] |= lst
